@@ -142,6 +142,7 @@ def gen_spec(seed, tier):
                              "table": own_tref()})
             elif mine:
                 prog.append({"op": "fire_short", "model": gen.pick(rng, mine)})
+        _add_caller_side_ops(prog, rng, t)
         spec["programs"].append(prog)
         spec["roles"][str(t)] = "client"
     spec["config"] = {"mode": "line", "policy": gen.pick(rng, ["uniform", "pct", "boundary"]),
@@ -155,6 +156,43 @@ def gen_spec(seed, tier):
             spec["faults"].append({"kind": "interrupt", "task": t, "op": i, "at": frng.randint(1, 400),
                                    "exc": "MemoryError" if frng.random() < 0.25 else "SimInterrupt"})
     return spec
+
+
+def _add_caller_side_ops(prog, rng, t):
+    """What a caller may do with ITS OWN objects between builds (side stream: the other draws of a seed stay as they were):
+    * build from a dict-list table it owns, edit one CD of that table in place, build again (a custom-curve truing loop):
+      the second model must follow the edited table;
+    * let a model go and keep only its data-point list (`curve = model.drag_table`): the kept list must stay what it was
+      through every later build, and can itself be passed as a table."""
+    import random as _random
+    r2 = _random.Random(repr(rng.getstate()[1][:6]) + "caller")
+    builds = [o for o in prog if o["op"] == "build_mbc"]
+    n_extra = 0
+    if builds and r2.random() < 0.35:
+        key = f"{t}.0"
+        name = gen.pick(r2, SHIPPED_TABLES)
+        src = gen.pick(r2, builds)
+        first = dict(src, table={"own": key, "name": name}, id=f"{t}.x{n_extra}")
+        first.pop("rebuild_of", None)
+        n_extra += 1
+        seq = [first]
+        for _ in range(r2.randint(1, 3)):
+            seq.append({"op": "edit_cd", "own": key, "name": name, "row": r2.randrange(80),
+                        "factor": round(r2.uniform(0.8, 1.25), 3)})
+            seq.append(dict(first, id=f"{t}.x{n_extra}"))
+            n_extra += 1
+        at = r2.randint(0, len(prog))
+        prog[at:at] = seq
+    if r2.random() < 0.35:
+        ids = [(i, o["id"]) for i, o in enumerate(prog) if o["op"] in ("build_mbc", "build_plain")]
+        if ids:
+            i, mid = gen.pick(r2, ids)
+            at = r2.randint(i + 1, len(prog))
+            prog.insert(at, {"op": "drop_keep", "model": mid})
+            later = [o for o in prog[at + 1:] if o["op"] in ("build_mbc", "build_plain")]
+            for o in later:
+                if r2.random() < 0.4:
+                    o["table"] = {"kept": 0}
 
 
 # ---------------------------------------------------------------------------------------------------------------
@@ -230,12 +268,26 @@ def simulate(spec):
     recipes = {}           # recipe key -> snapshot of first build
     pending = {}           # task -> (op, in_table floats, tkind, input table object)
     calc = pb.Calculator(_config={"max_calc_step_size_feet": 8.0})
+    own_tables = {}        # key -> [dict list owned by the caller, version]
+    kept = []              # [data-point list kept by the caller after its model was dropped, floats at that time]
+
+    def own_table(key, name):
+        if key not in own_tables:
+            own_tables[key] = [[dict(p) for p in getattr(pb, name)], 0]
+        return own_tables[key]
 
     def resolve(tr):
         """-> (table object, kind, recipe key part); a model of the other task that does not exist yet (schedule
         dependent) falls back to a shipped table and the recipe key says so"""
         if "shipped" in tr:
             return getattr(pb, tr["shipped"]), "shipped", tr["shipped"]
+        if "own" in tr:
+            tab, ver = own_table(tr["own"], tr["name"])
+            return tab, "own_dicts", f"o:{tr['own']}:v{ver}"
+        if "kept" in tr:
+            if kept:
+                return kept[tr["kept"] % len(kept)][0], "kept", f"k:{tr['kept'] % len(kept)}"
+            return getattr(pb, "TableG1"), "shipped", "TableG1"
         if "from_model" in tr:
             m = models.get(tr["from_model"])
             if m is not None:
@@ -295,6 +347,23 @@ def simulate(spec):
                         rec_[1] = (fhex(float(pt.BC)), rec_[1][1], rec_[1][2])
                         rec_[3] = op["bc"]
                 return {"kind": "ok", "digest": "edited"}
+            if k == "edit_cd":
+                t.harness = 1
+                ent = own_table(op["own"], op["name"])
+                row = ent[0][op["row"] % len(ent[0])]
+                row["CD"] = round(row["CD"] * op["factor"], 6)          # the caller's own edit of its own table
+                ent[1] += 1
+                return {"kind": "ok", "digest": "edited"}
+            if k == "drop_keep":
+                t.harness = 1
+                m = models.pop(op["model"], None)
+                msnaps.pop(op["model"], None)
+                if m is not None:
+                    kept.append([m.drag_table, [(fhex(a), fhex(b)) for a, b in _tfloats(m.drag_table)]])
+                    del m
+                    import gc
+                    gc.collect()
+                return {"kind": "ok", "digest": "dropped"}
             if k == "fire_short":
                 m = models.get(op["model"])
                 if m is None:
@@ -340,6 +409,13 @@ def simulate(spec):
             if [(fhex(a), fhex(b)) for a, b in _tfloats(table)] != [(fhex(a), fhex(b)) for a, b in in_floats]:
                 sink("inputs.table_changed", tkind, f"the table passed to {op['op']} ({tkind}) was altered by the call"
                                                    f"{' (interrupted)' if res.get('kind') == 'interrupted' else ''}")
+        # (O2) data-point lists the caller kept after letting their model go
+        for n, (tab, f0) in enumerate(kept):
+            now = [(fhex(a), fhex(b)) for a, b in _tfloats(tab)]
+            if now != f0:
+                sink("inputs.kept_table_changed", pend[2] if pend else "-",
+                     f"a data-point list kept by the caller after its model was dropped changed when {op['op']} ran")
+                kept[n][1] = now
         # (O2) points
         for p, f0, _, _ in ppoints:
             if (fhex(float(p.BC)), fhex(float(p.Mach)), fhex(float(p.V.raw_value))) != f0:
